@@ -25,6 +25,12 @@ async fn start_app(sc: &Value) -> Option<(u16, tokio::task::JoinHandle<()>)> {
     if let Some(s) = sc["secret"].as_str() {
         cfg["auth_secret"] = json!(s);
     }
+    if sc["proxy"].as_bool().unwrap_or(false) {
+        cfg["proxy_protocol"] = json!({"allow_v1": sc["allowV1"].as_bool().unwrap_or(true), "allow_v2": sc["allowV2"].as_bool().unwrap_or(true)});
+    }
+    if let Some(l) = sc["limit"].as_u64() {
+        cfg["rate_limiter"] = json!({"duration": 600, "limit": l});
+    }
     let config: passage::config::Config = serde_json::from_value(cfg).ok()?;
     let h = tokio::spawn(async move {
         let _ = passage::start(config).await.map_err(|e| e.to_string());
@@ -88,6 +94,22 @@ async fn run_one(sc: &Value) -> Value {
                         tokio::time::sleep(Duration::from_millis(300)).await;
                     }
                 }
+                // PROXY protocol on: the header arrives late (at 3/4 of the timeout), then nothing
+                "late-header" => {
+                    tokio::time::sleep(Duration::from_millis(timeout_ms * 3 / 4)).await;
+                    let _ = t.send_raw(&proxy_v1("203.0.113.9:4000".parse().unwrap(), format!("10.0.0.1:{port}").parse().unwrap())).await;
+                }
+                // an over-long length prefix (five bytes that all carry the continuation bit), then an endless body
+                "overlong-prefix" => {
+                    let _ = t.send_raw(&[0x80, 0x80, 0x80, 0x80, 0x80]).await;
+                    let junk = vec![0x41u8; 1000];
+                    for _ in 0..6 {
+                        if !t.send_raw(&junk).await {
+                            break;
+                        }
+                        tokio::time::sleep(Duration::from_millis(50)).await;
+                    }
+                }
                 "after-handshake" => {
                     let _ = login(&mut t, 2, "X", 1, None, "handshake", Duration::from_millis(300)).await;
                 }
@@ -109,6 +131,54 @@ async fn run_one(sc: &Value) -> Value {
             out["closed"] = json!(eof.is_some());
             out["closedAfterMs"] = json!(started.elapsed().as_millis() as u64);
             out["timeoutMs"] = json!(timeout_ms);
+        }
+        "C15app" => {
+            // the application's own wiring of the PROXY-protocol switches and the limiter: one connection per entry, in order
+            let mut res = vec![];
+            for c in sc["conns"].as_array().cloned().unwrap_or_default() {
+                let mut t = Tcp::connect(addr, None).await.unwrap();
+                let src: SocketAddr = c["src"].as_str().unwrap_or("203.0.113.10:40001").parse().unwrap();
+                let dst: SocketAddr = format!("10.0.0.1:{port}").parse().unwrap();
+                let hdr = if c["hdr"] == "v1" { proxy_v1(src, dst) } else { proxy_v2(src, dst) };
+                let _ = t.send_raw(&hdr).await;
+                let o = status_exchange(&mut t, None, Duration::from_millis(1200)).await;
+                res.push(json!({"hdr": c["hdr"], "src": c["src"], "outcome": o, "bytes": t.bytes_received}));
+            }
+            out["results"] = json!(res);
+        }
+        "C17app" => {
+            // an in-flight status exchange, paused between the response and the ping, when the operator interrupts the application
+            let mut t = Tcp::connect(addr, None).await.unwrap();
+            let _ = t.send_frame(0, &body_handshake(770, "h", 25565, 1)).await;
+            let _ = t.send_frame(0, &[]).await;
+            let got_status = matches!(t.recv(Duration::from_millis(1500)).await, Recv::Frame(0, _));
+            let _ = std::process::Command::new("kill").args(["-INT", &std::process::id().to_string()]).status();
+            tokio::time::sleep(Duration::from_millis(400)).await;
+            let returned_early = app.is_finished();
+            // a connection arriving after the interrupt
+            let late = match Tcp::connect(addr, None).await {
+                Err(_) => ("refused".to_string(), 0usize),
+                Ok(mut l) => {
+                    let o = status_exchange(&mut l, None, Duration::from_millis(600)).await;
+                    (o, l.bytes_received)
+                }
+            };
+            let _ = t.send_frame(1, &7u64.to_be_bytes()).await;
+            let pong = matches!(t.recv(Duration::from_millis(1500)).await, Recv::Frame(1, _));
+            let mut returned = false;
+            for _ in 0..60 {
+                if app.is_finished() {
+                    returned = true;
+                    break;
+                }
+                tokio::time::sleep(Duration::from_millis(100)).await;
+            }
+            out["gotStatus"] = json!(got_status);
+            out["returnedBeforeInFlightDone"] = json!(returned_early);
+            out["pong"] = json!(pong);
+            out["returned"] = json!(returned);
+            out["lateOutcome"] = json!(late.0);
+            out["lateBytes"] = json!(late.1);
         }
         _ => {}
     }
